@@ -25,6 +25,13 @@ def load_tokens_tsv():
     return rows
 
 
+def vec_of(obj, elem):
+    """the expression is a std::vector of the named record type (the token list, the error list, the scanner stack), whatever it is called"""
+    t = (strip_casts(obj).get('cty') or '') if obj is not None else ''
+    t = t.replace('const ', '').replace(' &', '').replace('&', '').strip()
+    return re.fullmatch(r'std::vector<(\w+::)*%s(, *std::allocator<.*>)?>' % re.escape(elem), t) is not None
+
+
 def c14(rep, tier):
     repo = os.environ.get('VERIF_REPO', '/repo')
     lpath = os.path.join(repo, 'Compiler/src/lexer.l')
@@ -315,13 +322,13 @@ def scan_rules(rep, sfacts):
                     if rets and all('T_EOF' in show(x['e']) for x in rets):
                         txt += ' T_EOF(helper %s)' % h['q']
         return txt
-    eofs = [ev for ev in g.calls() if is_call(ev.e, '::push_back') and show(ev.e['obj']) == 'res' and 'T_EOF' in eof_text(ev)]
+    eofs = [ev for ev in g.calls() if is_call(ev.e, '::push_back') and vec_of(ev.e['obj'], 'Token') and 'T_EOF' in eof_text(ev)]
     inside = [ev for ev in eofs if loops and any(x is ev.e for x in walk_all_exprs(loops[0]['body']))]
     S1.check(len(eofs) == 1 and not inside and g.on_all_paths(eofs[0]), 'scan: final EOF', 'one push of a T_EOF token on every path, outside the loop',
              '%d EOF pushes (%d inside the loop)' % (len(eofs), len(inside)), 'Compiler/src/scan.cpp:%d' % scan['loc'][1])
     S2 = rep.rule('C14.S2', 'every token the scanner returns is appended unchanged, except include directives and the end of a file', floor=2)
     ylex = [ev for ev in g.calls() if is_call(ev.e, 'yylex')]
-    pushes = [ev for ev in g.calls() if is_call(ev.e, '::push_back') and show(ev.e['obj']) == 'res' and ev not in eofs]
+    pushes = [ev for ev in g.calls() if is_call(ev.e, '::push_back') and vec_of(ev.e['obj'], 'Token') and ev not in eofs]
     if len(pushes) != 1 or not ylex or not loops:
         S2.unknown('scan', '%d token pushes / %d yylex calls' % (len(pushes), len(ylex)))
     else:
@@ -476,7 +483,7 @@ def c15(rep, tier):
         return out
 
     def err_pushes(kind):
-        return fam_calls(lambda e: is_call(e, '::push_back') and show(e['obj']).split('.')[-1] == 'errors' and kind in show(e))
+        return fam_calls(lambda e: is_call(e, '::push_back') and vec_of(e['obj'], 'ParseError') and kind in show(e))
 
     def record_of(ev):
         for x in walk_expr(ev.e):
@@ -555,7 +562,7 @@ def c15(rep, tier):
     I3.check(ok, 'scan: missing include target', 'FILE_NOT_FOUND with file_request = text.substr(1, size-2) when !files.contains(name)', why, W % scan['loc'][1])
     I4 = rep.rule('C15.I4', 'a file is pushed on the scanner stack only if it exists and is not already being scanned; the recursion test looks at '
                             'every active scanner and records RECURSIVE_INCLUDE', floor=3)
-    pushes_in = fam_calls(lambda e: is_call(e, '::push_back') and show(e['obj']) == 'lex_stack')
+    pushes_in = fam_calls(lambda e: is_call(e, '::push_back') and vec_of(e['obj'], 'Scanner'))
     loops = [s for s in walk_stmts(scan['body']) if s['k'] in ('while', 'for', 'do')]
     for pin in pushes_in:
         ev, g = pin.ev, pin.g
